@@ -1,6 +1,8 @@
 """Property id -> check function(pid, tier, seed) -> exit code."""
-from . import apichecks
+from . import apichecks, trie
 
 CHECKS = {}
-for _p in ("C01", "C02", "C09", "C10", "C11", "C12"):
+for _p in ("C01", "C02", "C06", "C09", "C10", "C11", "C12"):
     CHECKS[_p] = apichecks.run_plan
+for _p in ("C05", "C07", "C08", "C18"):
+    CHECKS[_p] = trie.run_plan
